@@ -44,11 +44,11 @@ var absent = struct{}{}
 
 func values(self M) []any {
 	return []any{absent, nil, true, 0.0, -1.0, math.Copysign(0, -1), 1.5, 9007199254740993.0, 9223372036854775808.0, 18446744073709551616.0, 1e300, "", "x",
-		"<b>x</b>", "\x01\x02", []any{}, []any{nil}, []any{"x"}, []any{[]any{}}, M{}, M{"type": "Link"}, M{"type": "Note"}, M{"type": "Person"}, M{"type": "OrderedCollection"},
+		"<b>x</b>", "\x01\x02", "a\n\n\n\nb", []any{}, []any{nil}, []any{"x"}, []any{[]any{}}, M{}, M{"type": "Link"}, M{"type": "Note"}, M{"type": "Person"}, M{"type": "OrderedCollection"},
 		self, deepArray(40), "2019-01-01T00:00:00Z", "text/plain", M{"type": "Link", "href": "https://l.example/x", "name": "n"}, []any{"https://a.example/1", M{"type": "Image", "url": "u"}}}
 }
 
-var reducedValues = []int{0, 1, 3, 4, 12, 16, 19, 21} // indices into values(): absent, null, 0, -1, "x", [null], {}, {"type":"Note"}
+var reducedValues = []int{0, 1, 3, 4, 12, 17, 20, 22} // indices into values(): absent, null, 0, -1, "x", [null], {}, {"type":"Note"}
 
 type baseline struct {
 	Kind string
@@ -346,7 +346,22 @@ func markupStreams(thorough bool) []stream {
 	post := func(doc, mt string) any {
 		return pub.New(M{"type": "Note", "content": doc, "mediaType": mt, "name": "t", "attachment": []any{M{"type": "Link", "href": "https://l.example/a", "name": "an attachment"}}}, nil)
 	}
-	html := func(labels []gen.HLabel, n int, name string) {
+	// the same document as the bio of an actor (previews of actors are built differently:
+	// no title line in front of the body) and that actor as the object of an activity
+	actor := func(doc, mt string) any {
+		return pub.New(M{"type": "Person", "name": "n", "preferredUsername": "u", "summary": doc, "mediaType": mt}, nil)
+	}
+	announced := func(doc, mt string) any {
+		return pub.New(M{"type": "Announce", "actor": M{"type": "Person", "name": "a"}, "object": M{"type": "Person", "name": "n", "summary": doc, "mediaType": mt}}, nil)
+	}
+	hostsOf := func(c caseDesc, doc, mt string, alsoAsBio bool) []func() {
+		fs := []func(){func() { exercise(post(doc, mt), widths) }}
+		if alsoAsBio {
+			fs = append(fs, func() { exercise(actor(doc, mt), widths) }, func() { exercise(announced(doc, mt), widths) })
+		}
+		return fs
+	}
+	html := func(labels []gen.HLabel, n int, name string, alsoAsBio bool) {
 		sp := gen.NewHTMLSpace(labels, n)
 		out = append(out, stream{name, sp.Size(), func(r *ev.Report, i int64) {
 			doc, _, ok := sp.At(i)
@@ -354,21 +369,31 @@ func markupStreams(thorough bool) []stream {
 				return
 			}
 			c := caseDesc{Class: "markup:html", HTML: doc, MT: "text/html"}
-			runCase(r, c, func() { exercise(post(doc, "text/html"), widths) })
+			for hi, f := range hostsOf(c, doc, "text/html", alsoAsBio) {
+				if hi > 0 {
+					c.Class = "markup-as-bio:html"
+				}
+				runCase(r, c, f)
+			}
 		}})
 	}
-	html(gen.HTMLLabels, 1, "html-full-1")
-	html(gen.HTMLLabels, 2, "html-full-2")
-	html(gen.HTMLReps, 3, "html-reps-3")
+	html(gen.HTMLLabels, 1, "html-full-1", true)
+	html(gen.HTMLLabels, 2, "html-full-2", true)
+	html(gen.HTMLReps, 3, "html-reps-3", false)
 	if thorough {
-		html(gen.HTMLLabels, 3, "html-full-3")
+		html(gen.HTMLLabels, 3, "html-full-3", true)
 	}
 	lines := func(name, mt string, alpha []string, n int, sep string) {
 		sp := gen.LineSpace{Alpha: alpha, N: n, Sep: sep}
 		out = append(out, stream{name, sp.Size(), func(r *ev.Report, i int64) {
 			doc := sp.At(i)
 			c := caseDesc{Class: "markup:" + strings.TrimPrefix(mt, "text/"), HTML: doc, MT: mt}
-			runCase(r, c, func() { exercise(post(doc, mt), widths) })
+			for hi, f := range hostsOf(c, doc, mt, true) {
+				if hi > 0 {
+					c.Class = "markup-as-bio:" + strings.TrimPrefix(mt, "text/")
+				}
+				runCase(r, c, f)
+			}
 		}})
 	}
 	nl := 2
@@ -455,8 +480,8 @@ func chainStreams(thorough bool) []stream {
 
 func main() {
 	r := ev.New("C06", "exploration",
-		"(1) JSON shapes: 21 baseline documents (actor, 7 post types, 4 activities, 4 collection kinds, 5 link kinds) with every field replaced by each of 30 values (absent, null, booleans, numbers incl. negative/fractional/2^53+1/2^63/2^64/1e300, strings, arrays, objects, self-nesting, 40-deep array), "+
-			"all single deviations, and all pairs of fields over 8 values on one baseline per kind (quick) / over 30 values on one baseline per kind and 8 values on the others (thorough); (2) markup forests (HTML <=2 nodes over 33 labels, 3 nodes over 14 labels (quick) / over all 33 labels (thorough); gemtext/Markdown/plaintext line sequences); (3) nesting chains of 15 element families x inner content, "+
+		"(1) JSON shapes: 21 baseline documents (actor, 7 post types, 4 activities, 4 collection kinds, 5 link kinds) with every field replaced by each of 31 values (absent, null, booleans, numbers incl. negative/fractional/2^53+1/2^63/2^64/1e300, strings incl. one with blank lines, arrays, objects, self-nesting, 40-deep array), "+
+			"all single deviations, and all pairs of fields over 8 values on one baseline per kind (quick) / over 31 values on one baseline per kind and 8 values on the others (thorough); (2) markup forests as post bodies and (the <=2-node and line-sequence spaces) as actor bios and announced actors (HTML <=2 nodes over 33 labels, 3 nodes over 14 labels (quick) / over all 33 labels (thorough); gemtext/Markdown/plaintext line sequences); (3) nesting chains of 15 element families x inner content, "+
 			"depths in increasing order up to 120 while the document stays < 4 kB; every case built through pub.New and followed by String/Preview at widths {-5,-1,0,1,2,3,4,5,8,9,80,200}, Name, Timestamp, Parents(0..3), Children().Harvest(0..3,0..2), SelectLink(min,-1,0,1,2,3,max), Media/ProfilePic/Banner/Creators/Recipients/Actor/Target; "+
 			"distinct_nontrivial = cases whose document differs from its baseline")
 	w := world.New() // every fetch is answered with 404
